@@ -317,4 +317,22 @@ CHECKS = {
         "required_probes": ["chain_keys_everywhere", "messages_checked", "message_sealed_before_announcement"],
         "assumptions": COMMON_ASSUMPTIONS + ["part C: schedules are explored at the instrumented points of store_message.go, group_context.go and internal/queue; orbit-db reactions are atomic steps"],
     },
+    "C19": {
+        "pkg": ".",
+        "test": "TestVerifC19",
+        "level": "exploration",
+        "proc_timeout": "60m",
+        "gomaxprocs": 2,
+        "quick": {"procs": 32, "checks_per_proc": 12},
+        "thorough": {"procs": 64, "checks_per_proc": 150},
+        "rule": "one case = a fresh real service (TestingService on an in-memory mocknet) receiving a seeded session of 1-25 steps: any "
+                "method of the protocol service interface (found by reflection; 2 methods needing an external HTTP issuer excluded) "
+                "with every request field drawn from an edge-value pool (nil, empty, 1/31/32/33/4096 bytes, valid keys known to the "
+                "session, marshalled group/contact, protobuf garbage; nil or filled sub-messages), deactivation/reactivation of the "
+                "account group or another group, joining a real multi-member group, and the exported decode/decrypt helpers on pool "
+                "values. non-trivial = always (every session contains malformed requests); distinct = distinct hash of the request trace.",
+        "required_probes": ["session_survived"],
+        "assumptions": COMMON_ASSUMPTIONS + ["not scheduler-controlled: mocknet and service goroutines are real; replay relies on panics being deterministic functions of the request history",
+                                             "requests are never nil themselves (gRPC always hands a message to the method)"],
+    },
 }
